@@ -1,5 +1,5 @@
 // C13: FileContentsWithChunkedCaching over an in-memory, logging source.
-// Case tokens: F <len> | Z <pos> (byte 0 at pos) | T <pos> (byte 10 at pos) | A <off> <size> | U <start> <end> <delim>
+// Case tokens: F <len> | Z <pos> (byte 0 at pos) | T <pos> (byte 10 at pos) | A <off> <size> | U <start> <end> <delim> | I <off> <size> <prefill> (read_bytes_into)
 // File bytes default to 1 + (i mod 7).  Outcome per op: K<n> (Ok, n bytes, equal to file[start..start+n)) | W<n> (Ok, other bytes) | E | P,
 // then "| off:size ..." = the reads issued to the source.
 use samply_symbols::{FileByteSource, FileContents, FileContentsWithChunkedCaching};
@@ -20,6 +20,28 @@ impl FileByteSource for Src {
         }
         buffer.extend_from_slice(&self.data[offset as usize..end]);
         Ok(())
+    }
+}
+
+/// read_bytes_into with a destination that already holds `prefill` bytes: K<n> = Ok, exactly n = size bytes appended, equal to the file, the earlier
+/// bytes untouched; W<len> = Ok with anything else; E = Err with the destination unchanged; W<len> also for an Err that changed the destination
+fn read_into<S: FileByteSource>(fc: &FileContentsWithChunkedCaching<S>, data: &[u8], off: u64, size: u64, prefill: u64) -> String {
+    let mut buf = vec![0xEEu8; prefill as usize];
+    match fc.read_bytes_into(&mut buf, off, size as usize) {
+        Ok(()) => {
+            let p = prefill as usize;
+            let good = buf.len() == p + size as usize
+                && buf[..p].iter().all(|b| *b == 0xEE)
+                && (off as usize).checked_add(size as usize).map_or(false, |e| e <= data.len() && data[off as usize..e] == buf[p..]);
+            format!("{}{}", if good { "K" } else { "W" }, buf.len().saturating_sub(p))
+        }
+        Err(_) => {
+            if buf.len() == prefill as usize {
+                "E".to_string()
+            } else {
+                format!("W{}", buf.len())
+            }
+        }
     }
 }
 
@@ -61,6 +83,10 @@ pub fn run_mt(toks: &[&str]) -> String {
                 threads.last_mut().unwrap().push(('U', toks[i + 1].parse().unwrap(), toks[i + 2].parse().unwrap(), toks[i + 3].parse().unwrap()));
                 i += 4;
             }
+            "I" => {
+                threads.last_mut().unwrap().push(('I', toks[i + 1].parse().unwrap(), toks[i + 2].parse().unwrap(), toks[i + 3].parse().unwrap()));
+                i += 4;
+            }
             t => panic!("bad token {t}"),
         }
     }
@@ -80,6 +106,9 @@ pub fn run_mt(toks: &[&str]) -> String {
                     ops.into_iter()
                         .map(|(k, a, b, d)| {
                             let r = catch_unwind(AssertUnwindSafe(|| {
+                                if k == 'I' {
+                                    return read_into(&fc, &data, a, b, d);
+                                }
                                 let res = if k == 'A' { fc.read_bytes_at(a, b) } else { fc.read_bytes_at_until(a..b, d as u8) };
                                 match res {
                                     Ok(bytes) => {
@@ -141,6 +170,10 @@ pub fn run(toks: &[&str]) -> String {
                 ops.push(('U', toks[i + 1].parse().unwrap(), toks[i + 2].parse().unwrap(), toks[i + 3].parse().unwrap()));
                 i += 4;
             }
+            "I" => {
+                ops.push(('I', toks[i + 1].parse().unwrap(), toks[i + 2].parse().unwrap(), toks[i + 3].parse().unwrap()));
+                i += 4;
+            }
             t => panic!("bad token {t}"),
         }
     }
@@ -150,6 +183,9 @@ pub fn run(toks: &[&str]) -> String {
     let mut out: Vec<String> = Vec::new();
     for (k, a, b, d) in ops {
         let r = catch_unwind(AssertUnwindSafe(|| {
+            if k == 'I' {
+                return read_into(&fc, &data, a, b, d);
+            }
             let res = if k == 'A' { fc.read_bytes_at(a, b) } else { fc.read_bytes_at_until(a..b, d as u8) };
             match res {
                 Ok(bytes) => {
